@@ -497,6 +497,47 @@ Proof.
   injection H2 as <-. exact H4.
 Qed.
 
+(* the same, remembering that an in-flight snapshot loads only when written in full *)
+Lemma crash_classify_full : forall e b parsed segs, In (e, b, parsed) (im_snp im) ->
+  load_one table im (e, b, parsed) = LOk segs ->
+  (exists f, In (e, f) (d_snp d) /\ segs = sf_segs f) \/
+  (exists f, In (f, TFull) (combine (d_fly d) choice) /\ if_snp f = true /\ if_id f = e /\ segs = if_segs f).
+Proof.
+  intros e b parsed segs Hin Hl. apply crash_snp_In in Hin.
+  destruct Hin as [[e0 [f [Hf Heq]]]|[[e0 [b0 [Hj Heq]]]|[f [c [b0 [Hc [Hs [Ht Heq]]]]]]]].
+  - injection Heq as -> -> ->. rewrite (crash_complete_loads e0 f Hf) in Hl. injection Hl as <-. left. exists f. auto.
+  - injection Heq as -> -> ->. rewrite load_one_fail in Hl by (apply (fi_junk table d HD e0 b0 Hj)). discriminate.
+  - injection Heq as -> -> ->. assert (Hf : In f (d_fly d)) by (apply (in_combine_l _ _ _ _ Hc)).
+    destruct c.
+    + discriminate.
+    + rewrite load_one_fail in Hl; [discriminate|].
+      apply (no_collision_spec table _ _ f (TPrefix len) b0 NC Hc Hs); [discriminate | exact Ht].
+    + rewrite load_one_fail in Hl; [discriminate|].
+      apply (no_collision_spec table _ _ f TZeros b0 NC Hc Hs); [discriminate | exact Ht].
+    + simpl in Ht. injection Ht as <-. rewrite load_one_ok in Hl.
+      * injection Hl as <-. right. exists f. auto.
+      * apply (fi_fly_loads table d HD f Hf Hs).
+      * intros s Hs'. apply crash_seg_complete. apply (fi_fly_segs table d HD f s Hf Hs Hs').
+Qed.
+
+Lemma crash_oks_origin_full : forall e segs, In (e, segs) (oks table im (files_of im)) ->
+  (exists f, In (e, f) (d_snp d) /\ segs = sf_segs f) \/
+  (exists f, In (f, TFull) (combine (d_fly d) choice) /\ if_snp f = true /\ if_id f = e /\ segs = if_segs f).
+Proof.
+  intros e segs Hin. apply oks_files_In in Hin. destruct Hin as [b [parsed [H1 H2]]].
+  apply (crash_classify_full e b parsed segs H1 H2).
+Qed.
+
+Lemma crash_oks_fly_full : forall f, In (f, TFull) (combine (d_fly d) choice) -> if_snp f = true ->
+  In (if_id f, if_segs f) (oks table im (files_of im)).
+Proof.
+  intros f Hc Hs. assert (Hf : In f (d_fly d)) by (apply (in_combine_l _ _ _ _ Hc)).
+  apply oks_files_In. exists (if_bytes f), (Some (if_segs f)). split.
+  - apply crash_snp_In. right. right. exists f, TFull, (if_bytes f). auto.
+  - apply load_one_ok; [apply (fi_fly_loads table d HD f Hf Hs)|].
+    intros s Hs'. apply crash_seg_complete. apply (fi_fly_segs table d HD f s Hf Hs Hs').
+Qed.
+
 (* C03.5 recover_succeeds, and what is recovered *)
 Lemma crash_recover_writer : forall n,
   (d_snp d <> [] -> exists r, recover_writer table n im = RecOk r) /\
@@ -754,4 +795,34 @@ Theorem run_pinv : forall table n st0 evs st,
   start_ok table n st0 -> paccept_run table st0 evs = Some st -> pinv table st.
 Proof.
   intros table n st0 evs st Hs H. apply (pinv_run table evs st0 st); [apply (start_ok_pinv table n st0 Hs) | exact H].
+Qed.
+
+(* ================================================================== *)
+(* 4. the tie to the correspondence cases (Index/ProtoCorr.v)            *)
+(* ================================================================== *)
+
+(* disk_ok as a boolean: evaluated on the start directory of recorded cases *)
+Definition disk_okb (table : list (list Z)) (d : disk) : bool :=
+  match d_fly d with [] => true | _ => false end &&
+  nodupZ (map fst (d_snp d)) &&
+  forallb (fun ef => match loaded_ids table (sf_bytes (snd ef)) with
+                     | Some ids => list_eqbZ ids (map fst (sf_segs (snd ef)))
+                     | None => false
+                     end &&
+                     forallb (fun s => zmem (fst s) (d_seg d)) (sf_segs (snd ef))) (d_snp d) &&
+  forallb (fun eb => negb (loads table (snd eb))) (d_junk_snp d).
+
+Lemma disk_okb_ok : forall table d, disk_okb table d = true -> disk_ok table d.
+Proof.
+  intros table d H. unfold disk_okb in H.
+  apply andb_true_iff in H. destruct H as [H H4]. apply andb_true_iff in H. destruct H as [H H3].
+  apply andb_true_iff in H. destruct H as [H1 H2].
+  rewrite forallb_forall in H3, H4. constructor.
+  - destruct (d_fly d); [reflexivity | discriminate].
+  - apply ModelProofsMerge.nodupZ_NoDup. exact H2.
+  - intros e f Hin. specialize (H3 _ Hin). simpl in H3. apply andb_true_iff in H3. destruct H3 as [H3 _].
+    destruct (loaded_ids table (sf_bytes f)) as [ids|]; [|discriminate]. apply list_eqbZ_eq in H3. subst. reflexivity.
+  - intros e f s Hin Hs. specialize (H3 _ Hin). simpl in H3. apply andb_true_iff in H3. destruct H3 as [_ H3].
+    rewrite forallb_forall in H3. apply in_map_iff in Hs. destruct Hs as [x [<- Hx]]. apply zmem_In. apply H3. exact Hx.
+  - intros e b Hin. specialize (H4 _ Hin). simpl in H4. apply negb_true_iff. exact H4.
 Qed.
